@@ -1,10 +1,21 @@
-"""C16 — packet framing: headers round-trip and packets are never interleaved or torn."""
-import time
-from explore import Job, run_jobs, Disagreement
+"""C16 — packet framing: headers round-trip and packets are never interleaved or torn.
+
+Correspondence
+  A  exhaustive co-exploration of small Packetizer / Depacketizer / Packetizer>Depacketizer / PacketFIFO /
+     Arbiter / Dispatcher instances against the Lean machines (all letters incl. garbage while valid = 0,
+     selector flips, contract-breaking producers: the model is faithful there too);
+  B  random lock-step co-simulation of realistic sizes (the test suite's 31-byte header and random headers,
+     data widths 8..128, packets of 1..127 beats) with the property monitors of c16lib armed;
+  C  `Header.encode/decode` of random field tables executed on a Netlist against the Lean functions.
+The B generators stay inside the region in which the property holds on the current tree; the regions in which
+it does not are compared against the model without monitors (`with_monitor=False`) and probed separately.
+"""
+import os, json, random, time
+from explore import Job, run_jobs, Disagreement, replay_with_monitor
 import c16lib as L
 from c16lib import bit_per_byte
 
-FMT = "see lean/LitexModel/Packet/Num.lean (inputs in protocol order of the instance's machine)"
+FMT = "letters/outputs in the port order documented in lean/LitexModel/Packet/Num.lean for the instance's machine"
 
 # header tables used by the small instances: name -> (byte, offset, width)
 H1 = {"a": (0, 0, 8)}
@@ -15,51 +26,90 @@ H4 = {"a": (0, 0, 16), "b": (2, 0, 16)}
 H5 = {"a": (0, 0, 8), "b": (1, 0, 32)}
 TEST_HDR = {"field_8b": (0, 0, 8), "field_16b": (1, 0, 16), "field_32b": (3, 0, 32), "field_64b": (7, 0, 64),
             "field_128b": (15, 0, 128)}
+ETH_LIKE = {"target_mac": (0, 0, 48), "sender_mac": (6, 0, 48), "ethernet_type": (12, 0, 16)}       # 14 bytes
+IP_LIKE = {"ihl": (0, 0, 4), "version": (0, 4, 4), "total_length": (2, 0, 16), "identification": (4, 0, 16),
+           "ttl": (8, 0, 8), "protocol": (9, 0, 8), "checksum": (10, 0, 16), "sender_ip": (12, 0, 32),
+           "target_ip": (16, 0, 32)}                                                                  # 20 bytes
 
 
 def hvals(fields, H, picks):
-    """Header field-value tuples whose encoded header bytes follow the given byte patterns (bit 0 of each byte),
-    for un-swapped reading of the table (enough to make every header byte toggle independently)."""
+    """Header field-value tuples whose un-swapped header bytes follow the given bit patterns (bit 0 of each
+    byte), so that header bytes toggle independently of each other."""
     names = sorted(fields)
     out = []
     for pat in picks:
         sig = sum(((pat >> k) & 1) << (8 * k) for k in range(H))
-        vals = []
-        for k in names:
-            b, o, w = fields[k]
-            vals.append((sig >> (8 * b + o)) & ((1 << w) - 1))
-        out.append(tuple(vals))
+        out.append(tuple((sig >> (8 * fields[k][0] + fields[k][1])) & ((1 << fields[k][2]) - 1) for k in names))
     return out
 
 
 def small_grid(tier):
-    """(B, H, fields, swap, header byte patterns)"""
+    """(B, H, fields, swap, header byte patterns, composite in this tier)"""
     quick = tier == "quick"
     g = [
-        (1, 1, H1, False, (0, 1)),
-        (1, 2, H2, True, (1, 2)),
-        (1, 3, H3, True, (1, 6) if quick else (1, 6, 3, 4)),
-        (2, 2, H2S, False, (1, 2)),
-        (2, 4, H4, True, (1, 14) if quick else (1, 14, 6, 9)),
-        (2, 1, H1, False, (0, 1)),                       # header shorter than a beat (W = 0)
-        (2, 3, H3, True, (1, 6) if quick else (1, 6, 3, 4)),   # W = 1, leftover 1
-        (2, 5, H5, True, (5, 26) if quick else (5, 26, 9, 18)),  # W = 2, leftover 1
+        (1, 1, H1, False, (0, 1), True),
+        (1, 2, H2, True, (1, 2), True),
+        (1, 3, H3, True, (1, 6) if quick else (1, 6, 3, 4), True),
+        (2, 2, H2S, False, (1, 2), True),
+        (2, 4, H4, True, (1, 14) if quick else (1, 14, 6, 9), True),
+        (2, 1, H1, False, (0, 1), True),                                  # header shorter than a beat (W = 0)
+        (2, 3, H3, True, (1, 6) if quick else (1, 6, 3, 4), True),        # W = 1, leftover 1
+        (2, 5, H5, True, (5, 26) if quick else (5, 26, 9, 18), not quick),  # W = 2, leftover 1
     ]
     if not quick:
-        g += [(3, 4, H4, False, (1, 14, 6, 9)), (3, 2, H2, False, (1, 2)), (3, 8, {"a": (0, 0, 64)}, True, (0x35, 0xca)),
-              (4, 6, {"a": (0, 0, 16), "b": (2, 0, 32)}, True, (0x15, 0x2a))]
+        g += [(3, 4, H4, False, (1, 14, 6, 9), True), (3, 2, H2, False, (1, 2), True),
+              (3, 8, {"a": (0, 0, 64)}, True, (0x35, 0xca), False),
+              (4, 6, {"a": (0, 0, 16), "b": (2, 0, 32)}, True, (0x15, 0x2a), False)]
     return g
 
 
-def jobs(tier):
+def rand_header(rng, H):
+    """A random non-overlapping field table over H bytes (whole-byte or sub-byte fields), swap random."""
+    fields = {}
+    pos = 0
+    k = 0
+    swap = rng.random() < 0.6
+    while pos < 8 * H and k < 8:
+        if rng.random() < 0.2:
+            pos += rng.choice((1, 3, 8))
+            continue
+        if pos % 8 == 0 and rng.random() < 0.7:
+            w = 8 * rng.randint(1, max(1, min(8, H - pos // 8)))
+        else:
+            w = rng.randint(1, 8 - pos % 8)
+        if pos + w > 8 * H:
+            break
+        fields["f%02d" % k] = (pos // 8, pos % 8, w)
+        pos += w
+        k += 1
+    if not fields:
+        fields["f00"] = (0, 0, 8)
+    return fields, swap
+
+
+def b_grid(tier, seed):
+    """Realistic parameterisations for mode B: (tag, B, H, fields, swap)."""
+    rng = random.Random(9000 + seed)
+    g = [("test_packet.py", Bb, 31, TEST_HDR, True) for Bb in (1, 4, 8, 16)]
+    g += [("eth", 4, 14, ETH_LIKE, True), ("ip", 8, 20, IP_LIKE, True), ("ip", 4, 20, IP_LIKE, True)]
+    nrand = 4 if tier == "quick" else 16
+    for _ in range(nrand):
+        Bb = rng.choice((1, 2, 4, 8, 16))
+        H = rng.randint(Bb, 40)                  # H >= B: the FSMs need at least one header word
+        f, sw = rand_header(rng, H)
+        g.append(("random", Bb, H, f, sw))
+    return g
+
+
+def jobs(tier, seed=0):
     quick = tier == "quick"
     J = []
     mx = 40000 if quick else 1500000
     A = lambda mk, **kw: J.append(Job("A", mk, max_states=kw.pop("max_states", mx), **kw))
-    B = lambda mk, **kw: J.append(Job("B", mk, cycles=kw.pop("cycles", 3000 if quick else 30000),
-                                      runs=kw.pop("runs", 1 if quick else 4), **kw))
+    B = lambda mk, **kw: J.append(Job("B", mk, cycles=kw.pop("cycles", 2500 if quick else 25000),
+                                      runs=kw.pop("runs", 1 if quick else 3), **kw))
     # ---- Packetizer / Depacketizer / round trip, exhaustive on small instances ---------------------------
-    for (Bb, H, f, sw, pats) in small_grid(tier):
+    for (Bb, H, f, sw, pats, comp) in small_grid(tier):
         dv = bit_per_byte(Bb)
         hv = hvals(f, H, pats)
         tag = "dw%d/H%d" % (8 * Bb, H)
@@ -67,8 +117,10 @@ def jobs(tier):
           L.packetizer_inst("Packetizer/" + tag, Bb, H, f, sw, dv, hv))
         A(lambda Bb=Bb, H=H, f=f, sw=sw, dv=dv, tag=tag:
           L.depacketizer_inst("Depacketizer/" + tag, Bb, H, f, sw, dv))
-        A(lambda Bb=Bb, H=H, f=f, sw=sw, dv=dv, hv=hv, tag=tag:
-          L.pkdpk_inst("Packetizer>Depacketizer/" + tag, Bb, H, f, sw, dv[:2] if Bb == 1 else [dv[1], dv[2]], hv[:2]))
+        if comp:
+            A(lambda Bb=Bb, H=H, f=f, sw=sw, dv=dv, hv=hv, tag=tag:
+              L.pkdpk_inst("Packetizer>Depacketizer/" + tag, Bb, H, f, sw, dv[:2] if Bb == 1 else [dv[1], dv[2]],
+                           hv[:2]))
     # ---- PacketFIFO ---------------------------------------------------------------------------------------
     # tokens (data, param, last).  T4 distinguishes data, param and last; T2 exercises the occupancy logic only
     # (every stored word of a deeper FIFO multiplies the implementation states by the number of token values)
@@ -82,6 +134,9 @@ def jobs(tier):
         A(lambda: L.packetfifo_inst("PacketFIFO(3)", 3, tokens=T4))
         A(lambda: L.packetfifo_inst("PacketFIFO(4)/T2", 4, tokens=T2))
         A(lambda: L.packetfifo_inst("PacketFIFO(3,param_depth=1)", 3, 1, tokens=T4))
+    for (pd, qd) in ((8, None), (16, 2)) if quick else ((8, None), (16, 2), (64, None), (5, 5), (32, 3)):
+        B(lambda pd=pd, qd=qd: L.packetfifo_inst("PacketFIFO(%d,%s)/8b" % (pd, qd), pd, qd, dwid=8, pwid=8,
+                                                 alphabet=False))
     # ---- Arbiter / Dispatcher -----------------------------------------------------------------------------
     A(lambda: L.arbiter_inst("Arbiter(2)", 2))
     A(lambda: L.arbiter_inst("Arbiter(3)", 3))
@@ -93,18 +148,432 @@ def jobs(tier):
         A(lambda: L.arbiter_inst("Arbiter(4)", 4, data_values=(0,)))
         A(lambda: L.dispatcher_inst("Dispatcher(3,one_hot)", 3, one_hot=True))
         A(lambda: L.dispatcher_inst("Dispatcher(4)", 4))
+    for n in (4,) if quick else (2, 4, 7):
+        B(lambda n=n: L.arbiter_inst("Arbiter(%d)/8b" % n, n, dwid=8, alphabet=False))
+        B(lambda n=n: L.dispatcher_inst("Dispatcher(%d)/8b" % n, n, dwid=8, alphabet=False))
+        B(lambda n=n: L.dispatcher_inst("Dispatcher(%d,one_hot)/8b" % n, n, one_hot=True, dwid=8, alphabet=False))
+    # ---- realistic Packetizer / Depacketizer / round trip, monitors armed ---------------------------------
+    for (tag, Bb, H, f, sw) in b_grid(tier, seed):
+        un = H % Bb != 0
+        name = "%s/dw%d/H%d" % (tag, 8 * Bb, H)
+        mn = 2 if un else 1           # unaligned: single-beat packets are a known-finding region (probed)
+        gb = "hold" if un else "random"   # unaligned: garbage on an invalid sink is a known-finding region (probed)
+        mxl = 127 if tag == "test_packet.py" and not quick else 24
+        B(lambda Bb=Bb, H=H, f=f, sw=sw, name=name, mn=mn, gb=gb, mxl=mxl:
+          L.packetizer_inst("Packetizer/" + name, Bb, H, f, sw, garbage=gb, min_len=mn, max_len=mxl, alphabet=False))
+        B(lambda Bb=Bb, H=H, f=f, sw=sw, name=name, mxl=mxl:
+          L.depacketizer_inst("Depacketizer/" + name, Bb, H, f, sw, alphabet=False, garbage="random",
+                              max_len=(8 * H) // (8 * Bb) + 2 + mxl))
+        B(lambda Bb=Bb, H=H, f=f, sw=sw, name=name, mn=mn, gb=gb, mxl=mxl:
+          L.pkdpk_inst("Packetizer>Depacketizer/" + name, Bb, H, f, sw, garbage=gb, min_len=mn, max_len=mxl,
+                       alphabet=False))
+    # ---- the regions in which the property fails on the current tree: model comparison only ----------------
+    for (Bb, H, f, sw) in ((4, 14, ETH_LIKE, True), (8, 20, IP_LIKE, True), (8, 3, H3, True)):
+        name = "defect-region/dw%d/H%d" % (8 * Bb, H)
+        B(lambda Bb=Bb, H=H, f=f, sw=sw, name=name:
+          L.packetizer_inst("Packetizer/" + name, Bb, H, f, sw, garbage="random", min_len=1, max_len=4,
+                            alphabet=False), with_monitor=False)
+        B(lambda Bb=Bb, H=H, f=f, sw=sw, name=name:
+          L.depacketizer_inst("Depacketizer/" + name, Bb, H, f, sw, alphabet=False, garbage="random",
+                              min_len=1, max_len=(8 * H) // (8 * Bb) + 4), with_monitor=False)
     return J
 
 
-def correspond(ctx):
-    ctx.jobs = jobs(ctx.tier)
-    dis, bad = run_jobs(ctx, ctx.jobs)
+# -------------------------------------------------------------------------------------------------------------
+# C: Header.encode / Header.decode against the Lean functions (and the round-trip / layout oracle)
+
+def _enc_dec_modules(hs):
+    from migen import Module, Signal, Record
+    layout = [(k, w) for k, (_, _, w) in zip(hs.names, hs.table)]
+
+    class Enc(Module):
+        def __init__(self):
+            self.obj = Record(layout)
+            self.sig = Signal(8 * hs.length)
+            self.comb += hs.header.encode(self.obj, self.sig)
+
+    class Dec(Module):
+        def __init__(self):
+            self.obj = Record(layout)
+            self.sig = Signal(8 * hs.length)
+            self.comb += hs.header.decode(self.sig, self.obj)
+    return Enc(), Dec()
+
+
+def real_encode_decode(hs, vals_list, sigs):
+    """Run the real Header.encode on every value vector and the real Header.decode on every signal value."""
+    from netlist import Netlist
+    enc, dec = _enc_dec_modules(hs)
+    ne, nd = Netlist(enc), Netlist(dec)
+    encoded = []
+    for vals in vals_list:
+        for k, v in zip(hs.names, vals):
+            ne.set(getattr(enc.obj, k), v)
+        ne.settle()
+        encoded.append(ne.getu(enc.sig))
+    decoded = []
+    for s in sigs:
+        nd.set(dec.sig, s)
+        nd.settle()
+        decoded.append([nd.getu(getattr(dec.obj, k)) for k in hs.names])
+    return encoded, decoded
+
+
+def rand_table(rng, allow_overlap):
+    H = rng.choice((1, 2, 3, 4, 6, 8, 14, 20, 31)) if rng.random() < 0.7 else rng.randint(1, 40)
+    if not allow_overlap:
+        f, sw = rand_header(rng, H)
+        if rng.random() < 0.3:      # also fields that straddle bytes / odd widths
+            k = len(f)
+            used = max((8 * b + o + w for (b, o, w) in f.values()), default=0)
+            if used + 3 <= 8 * H:
+                w = rng.randint(1, min(24, 8 * H - used))
+                f["g%02d" % k] = (used // 8, used % 8, w)
+        return f, H, sw
+    f = {}
+    for k in range(rng.randint(1, 5)):
+        w = rng.randint(1, min(8 * H, 40))
+        st = rng.randint(0, 8 * H - w)
+        f["f%02d" % k] = (st // 8, st % 8, w)
+    return f, H, rng.random() < 0.5
+
+
+def header_tie(ctx, ntables):
+    dis = []
+    rng = ctx.rng
+    ncases = 0
+    nontriv = 0
+    tables = [(TEST_HDR, 31, True), (TEST_HDR, 31, False), (ETH_LIKE, 14, True), (IP_LIKE, 20, True),
+              ({"a": (0, 0, 12)}, 2, True), ({"a": (0, 3, 20)}, 3, True)]
+    while len(tables) < ntables:
+        tables.append(rand_table(rng, allow_overlap=rng.random() < 0.25))
+    for (f, H, sw) in tables:
+        hs = L.HdrSpec(f, H, sw)
+        mx = hs.max_vals()
+        vals_list = [[0] * len(mx), list(mx)] + [[rng.choice((0, m, rng.randint(0, m), 1 << rng.randrange(m.bit_length())))
+                                                  for m in mx] for _ in range(6)]
+        sigs = [0, (1 << (8 * H)) - 1] + [rng.getrandbits(8 * H) for _ in range(6)]
+        enc, dec = real_encode_decode(hs, vals_list, sigs)
+        la = hs.lean_args()
+        reqs = ["encode %s %s" % (la, " ".join(map(str, v))) for v in vals_list] + \
+               ["decode %s %d" % (la, s) for s in sigs]
+        ans = ctx.lean.call_batch(reqs)
+        for k, v in enumerate(vals_list):
+            ncases += 1
+            nontriv += 1 if any(v) else 0
+            if ans[k] != str(enc[k]):
+                dis.append({"kind": "header-encode", "fields": f, "length": H, "swap": sw, "values": v,
+                            "impl": enc[k], "model": ans[k]})
+            ref = hs.ref_encode(v)
+            if ref is not None and ref != L.to_bytes(enc[k], H):
+                dis.append({"kind": "monitor:header layout", "fields": f, "length": H, "swap": sw, "values": v,
+                            "impl_bytes": L.to_bytes(enc[k], H), "prescribed_bytes": ref})
+        for k, s in enumerate(sigs):
+            ncases += 1
+            nontriv += 1 if s else 0
+            if ans[len(vals_list) + k].split() != [str(x) for x in dec[k]]:
+                dis.append({"kind": "header-decode", "fields": f, "length": H, "swap": sw, "signal": s,
+                            "impl": dec[k], "model": ans[len(vals_list) + k]})
+        # round trip on the real code (property oracle) inside the region where it is claimed
+        if hs.swappable() and hs.disjoint():
+            _, back = real_encode_decode(hs, [], enc)
+            for v, b in zip(vals_list, back):
+                if list(v) != list(b):
+                    dis.append({"kind": "monitor:header round trip", "fields": f, "length": H, "swap": sw,
+                                "values": v, "decoded": b})
+        ctx.cov.count("header_tables")
+        ctx.cov.count("header_tables_swap" if sw else "header_tables_noswap")
+        if not hs.disjoint():
+            ctx.cov.count("header_tables_overlapping")
+        if not hs.swappable():
+            ctx.cov.count("header_tables_odd_width_swapped")
+        if len(dis) > 5:
+            break
+    ctx.cov.add_cases("Header.encode/decode (random field tables)", ncases, nontriv, exhaustive=False)
+    if tables:
+        f, H, sw = tables[-1]
+        ctx.cov.samples.append({"instance": "Header", "mode": "C", "fields": f, "length": H, "swap": sw})
     return dis
 
 
+def correspond(ctx):
+    dis = []
+    for d in corpus_replay(ctx):
+        dis.append(d)
+    dis += header_tie(ctx, 120 if ctx.tier == "quick" else 1200)
+    ctx.jobs = jobs(ctx.tier, ctx.seed)
+    d2, bad = run_jobs(ctx, ctx.jobs)
+    return dis + d2
+
+
+# -------------------------------------------------------------------------------------------------------------
+# corpus: witnesses that must keep passing (fixed findings) — replayed first
+
+def corpus_dir():
+    return os.path.join(os.path.dirname(os.path.dirname(os.path.dirname(os.path.abspath(__file__)))), "corpus", "C16")
+
+
+def load_corpus():
+    out = []
+    d = corpus_dir()
+    if os.path.isdir(d):
+        for fn in sorted(os.listdir(d)):
+            if fn.endswith(".json"):
+                out.append((fn, json.load(open(os.path.join(d, fn)))))
+    return out
+
+
+def build_named(spec):
+    """Build an instance from a corpus/probe description {'kind':…, …}."""
+    k = spec["kind"]
+    if k == "packetfifo":
+        return L.packetfifo_inst(spec.get("name", "PacketFIFO"), spec["pd"], spec.get("qd"), dwid=spec.get("dwid", 8),
+                                 pwid=spec.get("pwid", 8), alphabet=False)
+    f = {n: tuple(v) for n, v in spec.get("fields", {}).items()}
+    if k == "packetizer":
+        return L.packetizer_inst(spec.get("name", "Packetizer"), spec["B"], spec["H"], f, spec["swap"], alphabet=False)
+    if k == "depacketizer":
+        return L.depacketizer_inst(spec.get("name", "Depacketizer"), spec["B"], spec["H"], f, spec["swap"], alphabet=False)
+    if k == "pkdpk":
+        return L.pkdpk_inst(spec.get("name", "Packetizer>Depacketizer"), spec["B"], spec["H"], f, spec["swap"],
+                            alphabet=False)
+    if k == "arbiter":
+        return L.arbiter_inst(spec.get("name", "Arbiter"), spec["n"], dwid=spec.get("dwid", 8), alphabet=False)
+    if k == "dispatcher":
+        return L.dispatcher_inst(spec.get("name", "Dispatcher"), spec["m"], one_hot=spec.get("one_hot", False),
+                                 dwid=spec.get("dwid", 8), alphabet=False)
+    raise KeyError(k)
+
+
+def corpus_replay(ctx):
+    """Corpus traces: the monitor must stay silent (entries with expect == 'pass') and the model must agree."""
+    from explore import impl_step, _masked_equal
+    out = []
+    for fn, c in load_corpus():
+        if c.get("expect") != "pass":
+            continue
+        inst = build_named(c["instance"])
+        trace = [tuple(l) for l in c["trace"]]
+        r = replay_with_monitor(inst, trace)
+        if r:
+            out.append(Disagreement(inst, trace[:r[0] + 1], r[0], None, None, kind="monitor:" + r[1]))
+            continue
+        # model agreement along the trace
+        n = inst.netlist
+        root = n.snapshot()
+        impl = [impl_step(inst, l) for l in trace]
+        n.restore(root)
+        ctx.lean.open(inst.lean_open)
+        model = ctx.lean.run(trace)
+        ctx.lean.close_session()
+        for t in range(len(trace)):
+            if not _masked_equal(inst, impl[t], model[t]):
+                out.append(Disagreement(inst, trace[:t + 1], t, impl[t], model[t]))
+                break
+        ctx.cov.add_instance("corpus:" + fn, states=0, transitions=len(trace),
+                             nontrivial=sum(1 for l, o in zip(trace, impl) if inst.nontrivial(l, o)),
+                             exhaustive=False, mode="corpus")
+    return out
+
+
+# -------------------------------------------------------------------------------------------------------------
+# probes: witnesses of the fixed finding and of the regions excluded by the `_partial` theorems
+
+def _run_trace(inst, trace):
+    return replay_with_monitor(inst, [tuple(l) for l in trace])
+
+
+def probe_packetfifo_param_dup():
+    """Fixed finding C16-packetfifo-param-dup: payload FIFO full exactly at a last beat, consumer stalled."""
+    inst = L.packetfifo_inst("PacketFIFO(2)/probe", 2, dwid=8, pwid=8, alphabet=False)
+    #        v  data  param last ready
+    trace = [(1, 0x11, 0xa1, 0, 0), (1, 0x12, 0xa1, 1, 0),        # packet A (2 beats) fills the payload FIFO
+             (1, 0x21, 0xb2, 1, 0), (1, 0x21, 0xb2, 1, 0), (1, 0x21, 0xb2, 1, 0),   # B's last beat stalled 3 cycles
+             (1, 0x21, 0xb2, 1, 1), (1, 0x21, 0xb2, 1, 1), (1, 0x21, 0xb2, 1, 1),
+             (0, 0, 0, 0, 1), (0, 0, 0, 0, 1), (0, 0, 0, 0, 1), (0, 0, 0, 0, 1)]
+    r = _run_trace(inst, trace)
+    return r
+
+
+def probe_single_beat_unaligned():
+    inst = L.packetizer_inst("Packetizer/dw16/H3/probe", 2, 3, H3, False, alphabet=False)
+    #        v  data   last a     b      ready
+    beat = (1, 0x2211, 1, 0xa1, 0xc3b2, 1)
+    return _run_trace(inst, [beat] * 8)
+
+
+def probe_header_shorter_than_beat():
+    inst = L.packetizer_inst("Packetizer/dw16/H1/probe", 2, 1, H1, False, alphabet=False)
+    return _run_trace(inst, [(1, 0x2211, 0, 0xa1, 1)] * 4 + [(1, 0x4433, 1, 0xa1, 1)] * 8)
+
+
+def probe_stale_last():
+    inst = L.packetizer_inst("Packetizer/dw16/H3/probe", 2, 3, H3, False, alphabet=False)
+    hdr = (0xa1, 0xc3b2)
+    tr = [(1, 0x2211, 0) + hdr + (1,)] * 3           # header word, first copy beat (beat accepted in the 3rd cycle)
+    tr += [(0, 0x9999, 1) + hdr + (1,)]              # bubble with `last` high while valid = 0
+    tr += [(1, 0x4433, 0) + hdr + (1,), (1, 0x6655, 1) + hdr + (1,), (0, 0, 0) + hdr + (1,), (0, 0, 0) + hdr + (1,)]
+    return _run_trace(inst, tr)
+
+
+def probe_depacketizer_residue_end():
+    inst = L.depacketizer_inst("Depacketizer/dw16/H3/probe", 2, 3, H3, False, alphabet=False)
+    mon = ResidueEndOracle()
+    from explore import impl_step
+    n = inst.netlist
+    root = n.snapshot()
+    a = [(1, 0xb2a1, 0, 1), (1, 0x11c3, 1, 1)]                                   # header + 1 payload byte
+    b = [(1, 0xe2d1, 0, 1), (1, 0x21f3, 0, 1), (1, 0x4332, 0, 1), (1, 0x0044, 1, 1)]
+    res = None
+    for t, l in enumerate(a + b + [(0, 0, 0, 1)] * 3):
+        o = impl_step(inst, l)
+        m = mon.observe(l, o)
+        if m:
+            res = (t, m)
+            break
+    n.restore(root)
+    return res
+
+
+class ResidueEndOracle:
+    """After a packet that ends inside the residue beat, the next packet must still be delivered with its own
+    header (fields a = byte 0, b = bytes 1..2 of its first three bytes)."""
+    def __init__(self):
+        self.beats = []
+        self.npk = 0
+
+    def observe(self, letter, outs):
+        v, d, l, r = letter
+        if v and outs[0]:
+            self.beats.append((d, l))
+        if outs[1] and r:
+            a, b = outs[4], outs[5]
+            if (a, b) not in ((0xa1, 0xc3b2), (0xd1, 0xf3e2)):
+                return "delivered header a=0x%x b=0x%x belongs to no packet sent (next packet's first beat swallowed)" % (a, b)
+        return None
+
+
+def probe_swap_odd_width():
+    hs = L.HdrSpec({"f": (0, 0, 12)}, 2, True)
+    enc, _ = real_encode_decode(hs, [[0xdef]], [])
+    _, dec = real_encode_decode(hs, [], enc)
+    if dec[0] != [0xdef]:
+        return (0, "encode(0xdef) = 0x%x decodes to 0x%x" % (enc[0], dec[0][0]))
+    return None
+
+
+PROBES = [
+    ("C16-packetfifo-param-dup", probe_packetfifo_param_dup,
+     "PacketFIFO: last beat stalled on a full payload FIFO"),
+    ("C16-packetizer-unaligned-single-beat", probe_single_beat_unaligned,
+     "Packetizer, header not a multiple of the data width: single-beat packet is torn and re-sent forever"),
+    ("C16-header-shorter-than-beat", probe_header_shorter_than_beat,
+     "Packetizer/Depacketizer with header shorter than one beat never leave the header state"),
+    ("C16-packetizer-unaligned-bubble", probe_stale_last,
+     "Packetizer, unaligned header: sink_d samples an invalid sink beat (its data replaces the carried residue "
+     "bytes, its `last` terminates the packet)"),
+    ("C16-depacketizer-residue-end", probe_depacketizer_residue_end,
+     "Depacketizer, unaligned header: packet ending inside the residue beat swallows the next packet's first beat"),
+    ("C16-header-swap-odd-width", probe_swap_odd_width,
+     "Header with swap_field_bytes: field wider than 8 bits and not a whole number of bytes does not round-trip"),
+]
+
+
+def probes(ctx):
+    out = []
+    listed = {e.get("id") for e in ctx.known}
+    for fid, fn, what in PROBES:
+        r = fn()
+        fails = r is not None
+        if fails and fid not in listed:
+            # reported to the coordinator; until it is listed (or fixed) the witness is recorded as a note only
+            ctx.cov.notes.append("unlisted deviation %s still reproduces: %s (%s)" % (fid, what, r[1]))
+            ctx.log("NOTE unlisted deviation %s reproduces: %s" % (fid, r[1]))
+            continue
+        out.append((fid, fails, what + (": " + r[1] if r else "")))
+    return out
+
+
+# -------------------------------------------------------------------------------------------------------------
+# failing-input search (closed loop, monitors armed) and replay
+
 def search(ctx, disagreements, proof_info):
+    for d in disagreements:
+        if isinstance(d, dict) and d.get("kind", "").startswith("monitor:"):
+            return {"instance": "Header", "input": d, "monitor": d["kind"][8:]}
+    for d in disagreements:
+        if not isinstance(d, dict) and getattr(d, "kind", "").startswith("monitor:"):
+            return {"instance": d.inst_name, "job": d.job, "trace": [list(l) for l in d.trace],
+                    "monitor": d.kind[8:], "letter_format": FMT}
+    deadline = time.time() + (60 if ctx.tier == "quick" else 600)
+    all_jobs = getattr(ctx, "jobs", None) or jobs(ctx.tier, ctx.seed)
+    by_job = {}
+    for d in disagreements:
+        if not isinstance(d, dict):
+            by_job.setdefault(d.job, []).append(d)
+    order = [j for j in by_job if j is not None] + [j for j in range(len(all_jobs)) if j not in by_job]
+    for j in order:
+        if time.time() > deadline:
+            break
+        job = all_jobs[j]
+        if job.kw.get("with_monitor") is False:
+            continue
+        inst = job.make()
+        # 1. the disagreement traces themselves
+        for d in by_job.get(j, []):
+            r = replay_with_monitor(inst, [tuple(l) for l in d.trace])
+            if r:
+                return {"instance": inst.name, "job": j, "trace": [list(l) for l in d.trace[:r[0] + 1]],
+                        "monitor": r[1], "letter_format": FMT}
+        # 2. closed-loop random runs (contract-abiding producers) with the monitor armed
+        for k in range(6 if j in by_job else 2):
+            if time.time() > deadline:
+                break
+            trace, r = L.closed_loop_run(inst, ctx.rng, 1500 if j in by_job else 400)
+            if r:
+                return {"instance": inst.name, "job": j, "trace": [list(l) for l in trace[:r[0] + 1]],
+                        "monitor": r[1], "letter_format": FMT}
+    # 3. header round trip / layout oracle on fresh tables
+    hd = [d for d in header_tie(ctx, 200) if d.get("kind", "").startswith("monitor:")]
+    if hd:
+        return {"instance": "Header", "input": hd[0], "monitor": hd[0]["kind"][8:]}
     return None
 
 
 def replay(ctx, payload):
+    fi = payload.get("failing_input") or {}
+    if not fi:
+        print("replay file carries no failing input (no-failing-input-found); disagreements were:")
+        for d in payload.get("disagreements", [])[:3]:
+            print("  ", d)
+        return 1
+    if fi.get("instance") == "Header":
+        d = fi["input"]
+        hs = L.HdrSpec({k: tuple(v) for k, v in d["fields"].items()}, d["length"], d["swap"])
+        enc, _ = real_encode_decode(hs, [d["values"]], [])
+        _, dec = real_encode_decode(hs, [], enc)
+        ref = hs.ref_encode(d["values"])
+        bad = (ref is not None and ref != L.to_bytes(enc[0], hs.length)) or \
+              (hs.swappable() and hs.disjoint() and list(dec[0]) != list(d["values"]))
+        print("encode ->", hex(enc[0]), "decode ->", dec[0], "prescribed bytes", ref)
+        if bad:
+            print("VIOLATION property=C16 replay=(replayed)")
+            return 1
+        print("input no longer violates the property on the current tree")
+        return 0
+    all_jobs = jobs(payload.get("tier", "quick"), payload.get("seed", 0))
+    j = fi.get("job")
+    cands = [all_jobs[j]] if j is not None and j < len(all_jobs) else all_jobs
+    for job in cands:
+        inst = job.make()
+        if inst.name != fi.get("instance"):
+            continue
+        r = replay_with_monitor(inst, [tuple(l) for l in fi["trace"]])
+        if r:
+            print("cycle %d: %s" % r)
+            print("VIOLATION property=C16 replay=(replayed)")
+            return 1
+        print("trace no longer violates the property on the current tree")
+        return 0
+    print("instance %r not found" % fi.get("instance"))
     return 2
